@@ -82,6 +82,11 @@ pub fn start_generator_dirty_kind(zp: u64, kind: u8) -> Generator {
 
 /// From-scratch execution of one case with a plain loop (used by replay).
 pub fn run_case(c: &Value) -> Result<(), String> {
+    // a panic escaping from the library through any call below is a violation of this case, not a crash
+    guard_case(|| run_case_unguarded(c))
+}
+
+fn run_case_unguarded(c: &Value) -> Result<(), String> {
     let zp = c["zero_prefix"].as_u64().ok_or("zero_prefix")?;
     let hint = c["hint"].as_u64();
     let mut g = match (c["dirty_start"].as_bool(), c["dirty_start"].as_u64()) {
